@@ -233,6 +233,7 @@ def run(ctx):
     using_walks_carry_a_visited_set(ctx)
     variable_evaluation_is_guarded(ctx)
     macro_table_holds_no_null(ctx)
+    predecrement_subscripts_have_a_floor(ctx)
     instance_substitution_registers_first(ctx)
     containment_recursion(ctx)
     construction_stacks(ctx)
@@ -2345,3 +2346,59 @@ def macro_table_holds_no_null(ctx):
                             why = "`%s` may be null here (it is not always a fresh allocation and no test precedes the store)" % r.get("n")
             ctx.ob("R15.31", "%s|store#%d|never-null" % (f.name, n), ok, f.loc(y), why)
     ctx.floor("R15.31", "stores into the macro table", n, 4)
+
+
+def _predecrement_subscripts(fn):
+    out = []
+    for x in fn.walk():
+        idx = None
+        if x.get("k") == "idx":
+            idx = x.get("x")
+        elif x.get("k") == "call" and callee_short(x) == "operator[]" and x.get("a"):
+            idx = x["a"][-1]
+        i0 = strip_casts(peel(idx)) if idx is not None else None
+        if i0 is not None and i0.get("k") == "un" and i0.get("op") == "--" and local_ref(i0.get("e")) is not None:
+            out.append((x, local_ref(i0["e"])))
+    return out
+
+
+def predecrement_subscripts_have_a_floor(ctx):
+    """R15.32: `X[--i]` with an unsigned i reads X[SIZE_MAX] when i is 0 - one byte in front of a std::string's buffer.
+    show_line() stripped trailing blanks with `while (isspace(linestr[--last]))`: for an error on an empty or all-blank
+    line `last` reaches 0 (F-C15ac; my first reading had dismissed this site as "not reproduced" - AddressSanitizer
+    reproduces it as a heap-buffer-overflow).  A pre-decremented subscript needs `i > 0` (or `i != 0`) on the way."""
+    db = ctx.db
+    ctx.rule("R15.32", "a subscript `X[--i]` is reached only where `i > 0` / `i != 0` was established for the same i")
+
+    class _P:
+        def walk(self):
+            return [{"k": "idx", "b": {"k": "ref", "d": 1}, "x": {"k": "un", "op": "--", "e": {"k": "ref", "d": 2, "dk": "local", "n": "last"}}}]
+    if len(_predecrement_subscripts(_P())) != 1:
+        ctx.broken("R15.32: the detector no longer recognises its own example")
+    n = m = 0
+    for f in db.functions:
+        if "bison" in f.file.lower() or not any(d in f.file for d in ("/cppparser/", "/interrogate/", "/interrogatedb/", "/dtoolutil/")):
+            continue
+        n += 1
+        for x, r in _predecrement_subscripts(f):
+            m += 1
+            d = r["d"]
+
+            def positive(atom, truth, d=d):
+                ca = G.cmp_atom(atom)
+                if not ca:
+                    return (local_ref(atom) or {}).get("d") == d and truth
+                op, u, v = ca
+                op = op if truth else G.NEG[op]
+                if (local_ref(v) or {}).get("d") == d:
+                    op, u, v = G.SWAP[op], v, u
+                if (local_ref(u) or {}).get("d") != d:
+                    return False
+                c = const_int(v)
+                return (op == ">" and c is not None and c >= 0) or (op == "!=" and c == 0) or (op == ">=" and c is not None and c >= 1)
+            e = G.edges_where(f, positive)
+            ok = bool(e) and G.gated(f, x, e)
+            ctx.ob("R15.32", "%s|%s|index-above-zero" % (f.name, _norm(show(x))[:50]), ok, f.loc(x),
+                   "`%s` is decremented for the subscript only where it is above 0" % r.get("n") if ok else "`%s` may be 0 when it is decremented for the subscript" % r.get("n"))
+    ctx.ob("R15.32", "no-unfloored-predecrement-subscript", True, "src", "%d functions examined, %d pre-decremented subscripts" % (n, m))
+    ctx.floor("R15.32", "functions examined", n, 500)
